@@ -53,3 +53,31 @@ Lemma reciprocal_endstop_refuted :
   let dz := f_of_bits 4587366580439587226 in    (* 0.05 *)
   cc_byte (fst (shape_gen true 0 255 false dz 255)) = 126%N /\ cc_byte (fst (shape 0 255 false dz 255)) = 127%N.
 Proof. vm_compute. split; reflexivity. Qed.
+
+(* ---------------------------------------------------------------------- bounds that hold for EVERY float (NaN, infinities included) *)
+Lemma land127_bound (t : Z) : (Z.to_N (Z.land t 127) < 128)%N.
+Proof.
+  change 127%Z with (Z.ones 7). rewrite Z.land_ones by lia.
+  pose proof (Z.mod_pos_bound t (2 ^ 7) ltac:(reflexivity)) as H. change (2 ^ 7)%Z with 128%Z in *.
+  apply N2Z.inj_lt. rewrite Z2N.id by lia. change (Z.of_N 128) with 128%Z. lia.
+Qed.
+
+Lemma pb_bytes_bound r v : (fst (pb_bytes r v) < 128)%N /\ (snd (pb_bytes r v) < 128)%N.
+Proof. unfold pb_bytes. cbn [fst snd]. split; apply land127_bound. Qed.
+
+Lemma cc_byte_lt_256 adj : (cc_byte adj < 256)%N.
+Proof.
+  unfold cc_byte, byte_of_Z.
+  pose proof (Z.mod_pos_bound (f2int (fmul f127 adj)) 256 ltac:(reflexivity)) as H.
+  apply N2Z.inj_lt. rewrite Z2N.id by lia. change (Z.of_N 256) with 256%Z. lia.
+Qed.
+
+(* the sample handed to the state machine carries the Analog entry it was given and pitch-bend data bytes below 128 *)
+Lemma make_sample_fields code a canneg v :
+  sa_an (make_sample code a canneg v) = a /\ sa_code (make_sample code a canneg v) = code /\
+  (sa_lsb (make_sample code a canneg v) < 128)%N /\ (sa_msb (make_sample code a canneg v) < 128)%N.
+Proof.
+  unfold make_sample. destruct (cc_encode canneg (a_bidi a) v) as [neg ccv].
+  pose proof (pb_bytes_bound true (centred canneg v)) as [B1 B2].
+  destruct (pb_bytes true (centred canneg v)) as [lsb msb]. cbn in *. auto.
+Qed.
